@@ -49,9 +49,10 @@ ASSUMPTIONS = [
     "the WHERE pattern's solution sequence is the listed rows (checked on every case against rdflib itself: SELECT of all variables)",
     "CPython sorted() is a stable sort (the model uses insertion sort; on a strict weak order every stable sort gives the same list)",
     "CPython's datetime module is what Model.lean transcribes (_ymd2ord, _days_before_month, field checks, isoformat); compared on every case with temporal terms / probes (`cal` line)",
-    "Python int/Decimal arithmetic is exact on the generated magnitudes; generated xsd:double values are small dyadic "
-    "rationals so float sums are exact; AVG quotients (Decimal 28 digits / float) are compared after rounding to the "
-    "nearest fraction with denominator <= 10^6",
+    "Python int/Decimal arithmetic is exact on the generated magnitudes; CPython float arithmetic is IEEE 754 binary64 "
+    "round-to-nearest-even and repr() the shortest round-tripping form (modelled in lean/RV/C08/Float.lean and compared exactly, "
+    "value and lexical form, on every double / float cell); decimal AVG quotients (Decimal, 28 digits) are compared after rounding "
+    "to the nearest fraction with denominator <= 10^6 plus their fraction digits",
     "an error of an aggregate's argument expression for a row either removes that row from the aggregate (rdflib, pinned by its "
     "own tests) or makes the aggregate an error/unbound (SPARQL 18.5.1 read literally): both are accepted, aborting the query is not",
     "GROUP BY over zero solutions may yield zero rows (18.5 Group) or one row without bindings (W3C test agg-empty-group): both accepted",
